@@ -135,11 +135,12 @@ def materialise(root, entries, names=None, contents=None):
             os.mkfifo(path, e.get("m", 0o644))
         elif k == "sock":
             s = socket.socket(socket.AF_UNIX)
-            cwd = os.getcwd()
+            tmpname = ("/var/tmp/.xv-sock-%d-%d" % (os.getpid(), id(s))).encode()
             try:
-                os.chdir(os.path.dirname(path)); s.bind(os.path.basename(path))
+                s.bind(tmpname)          # sun_path is short; then move the node where it belongs
             finally:
-                os.chdir(cwd); s.close()
+                s.close()
+            os.rename(tmpname, path)
         elif k in ("chr", "blk"):
             maj, mi = e.get("r", [1, 3])
             os.mknod(path, (stat.S_IFCHR if k == "chr" else stat.S_IFBLK) | e.get("m", 0o644), os.makedev(maj, mi))
